@@ -4,6 +4,7 @@ import (
 	"math"
 	"regexp"
 	"strconv"
+	"time"
 )
 
 // lexical spaces which strconv.ParseFloat does not check (it also reads hexadecimal floats, underscores, any
@@ -25,4 +26,43 @@ func formatFloatLexicalForm(v float64, bitSize int) string {
 	}
 
 	return strconv.FormatFloat(v, 'f', -1, bitSize)
+}
+
+// lexical spaces of the date and time datatypes: time.Parse alone also reads one-digit hours, offsets beyond 14:00
+// and a lower-case z
+const (
+	yearFrag  = `-?([1-9][0-9]{3,}|0[0-9]{3})`
+	monthFrag = `(0[1-9]|1[0-2])`
+	dayFrag   = `(0[1-9]|[12][0-9]|3[01])`
+	dateFrag  = yearFrag + `-` + monthFrag + `-` + dayFrag
+	timeFrag  = `(([01][0-9]|2[0-3]):[0-5][0-9]:[0-5][0-9](\.[0-9]+)?|24:00:00(\.0+)?)`
+	tzFrag    = `(Z|[+-]((0[0-9]|1[0-3]):[0-5][0-9]|14:00))`
+)
+
+var (
+	dateTimeLexicalRE      = regexp.MustCompile(`^` + dateFrag + `T` + timeFrag + tzFrag + `?` + `$`)
+	dateTimeStampLexicalRE = regexp.MustCompile(`^` + dateFrag + `T` + timeFrag + tzFrag + `$`)
+	dateLexicalRE          = regexp.MustCompile(`^` + dateFrag + tzFrag + `?` + `$`)
+	timeLexicalRE          = regexp.MustCompile(`^` + timeFrag + tzFrag + `?` + `$`)
+	gYearLexicalRE         = regexp.MustCompile(`^` + yearFrag + tzFrag + `?` + `$`)
+	gYearMonthLexicalRE    = regexp.MustCompile(`^` + yearFrag + `-` + monthFrag + tzFrag + `?` + `$`)
+	gMonthDayLexicalRE     = regexp.MustCompile(`^` + `--` + monthFrag + `-` + dayFrag + tzFrag + `?` + `$`)
+	gDayLexicalRE          = regexp.MustCompile(`^` + `---` + dayFrag + tzFrag + `?` + `$`)
+	gMonthLexicalRE        = regexp.MustCompile(`^` + `--` + monthFrag + tzFrag + `?` + `$`)
+)
+
+// parseTimeLexicalForm reads a lexical form of the lexical space re with the first layout which fits it.
+func parseTimeLexicalForm(lexicalForm string, re *regexp.Regexp, layouts ...string) (time.Time, string, bool) {
+	if !re.MatchString(lexicalForm) {
+		return time.Time{}, "", false
+	}
+
+	for _, layout := range layouts {
+		parsed, err := time.Parse(layout, lexicalForm)
+		if err == nil {
+			return parsed, layout, true
+		}
+	}
+
+	return time.Time{}, "", false
 }
